@@ -26,8 +26,17 @@ ASSUMPTIONS = ["exponents are modelled in Q; the code uses int/binary64: cases i
                "of the property (documented limitation) and are not generated",
                "leaf exponents are non-zero (a unit written 'm^0' keeps a zero entry; see notes)"]
 TRUSTED = ["the library's own parser is used to read the result's unit string back (tied by C12/C13)"]
-LEVEL_TEXT = "proof"
-LEVEL_NOTE = "theorems about the Lean model; model tied to the code by the differential run"
+LEVEL_TEXT = ("Lean 4 theorems over an exact list/Rat model of units.py whose operator dispatch table is "
+              "regenerated from the source on every run: C08_dim (for EVERY unit-expression tree in the "
+              "documented domain - any depth, any symbols, any rational exponents - the unit the model "
+              "attaches to the result has, symbol by symbol, the exponents of exact dimensional analysis, "
+              "and a warning is raised at a +/- exactly when the operands' dimensions differ), "
+              "C08_order_insensitive / C08_perm (the outcome does not depend on the written order of the "
+              "factors), C08_mismatch, C08_exponents, C08_no_zero_entries.  The model is tied to the code by "
+              "a differential run on seeded trees and by an independent Fraction oracle; a proof is the "
+              "right level because the claim quantifies over all trees and orders, which tests sample")
+LEVEL_NOTE = ("proved of the Lean model for all trees; binary64 exponent arithmetic (thirds) is outside the "
+              "exact model and such cases are skipped, not judged")
 TECHNIQUE = "Lean 4 theorems over an exact list/Rat model + translator-generated dispatch table"
 
 
